@@ -400,6 +400,8 @@ var busy = 0, last = "";
 function spin(n) { var x = 0; for (var i = 0; i < n; i++) { x += i % 7; } return x; }
 function FindProxyForURL(url, host) {
   if (busy != 0) { return "PROXY race:1"; }
+  if (host.indexOf("throw") == 0) { throw new Error("boom " + host); }
+  if (host.indexOf("num") == 0) { return 42; }
   busy = 1; last = host;
   spin(200 + (host.length * 37) % 400);
   var r = (last == host) ? "PROXY " + host + ":" + (1000 + host.length) : "PROXY foreign:2";
@@ -415,7 +417,7 @@ function FindProxyForURL(url, host) {
 	ms := 1500
 	fmt.Sscan(e.args["ms"], &ms)
 	dur = time.Duration(ms) * time.Millisecond
-	var evals, bad atomic.Int64
+	var evals, bad, fails atomic.Int64
 	var firstBad atomic.Value
 	var wg sync.WaitGroup
 	stop := time.Now().Add(dur)
@@ -426,6 +428,22 @@ function FindProxyForURL(url, host) {
 			u, _ := url.Parse("http://x/")
 			for i := 0; time.Now().Before(stop); i++ {
 				host := fmt.Sprintf("g%d-%s", g, strings.Repeat("x", i%9))
+				// failing evaluations (EvalFail): the error is the caller's own answer and the
+				// VM goes back to the pool exactly once
+				if (i+g)%7 == 3 || (i+g)%11 == 5 {
+					pre := "throw"
+					if (i+g)%11 == 5 {
+						pre = "num"
+					}
+					got, err := pool.FindProxyForURL(u, pre+host)
+					evals.Add(1)
+					fails.Add(1)
+					if err == nil || got != "" {
+						bad.Add(1)
+						firstBad.CompareAndSwap(nil, fmt.Sprintf("host %s: got %q err %v want an error", pre+host, got, err))
+					}
+					continue
+				}
 				got, err := pool.FindProxyForURL(u, host)
 				want := fmt.Sprintf("PROXY %s:%d", host, 1000+len(host))
 				evals.Add(1)
@@ -437,7 +455,7 @@ function FindProxyForURL(url, host) {
 		}(g)
 	}
 	wg.Wait()
-	res := map[string]any{"evals": evals.Load(), "bad": bad.Load(), "ok": bad.Load() == 0}
+	res := map[string]any{"evals": evals.Load(), "fails": fails.Load(), "bad": bad.Load(), "ok": bad.Load() == 0}
 	if v := firstBad.Load(); v != nil {
 		res["why"] = v
 	}
